@@ -413,12 +413,15 @@ def composition_obligations(rep, targets=("python", "numpy", "cpp", "xla_client"
                     a2 = list(args)
                     a2[j] = "(" + ctxt + ")"
                     try:
-                        e1 = ast.dump(ast.parse(conv(pv.format(*a1, typeof_0="float")), mode="eval"))
                         e2 = ast.dump(ast.parse(conv(pv.format(*a2, typeof_0="float")), mode="eval"))
                     except SyntaxError:
-                        skipped.append(pk)
+                        skipped.append(pk)  # the parent template itself is not readable as a Python expression
                         break
                     n += 1
+                    try:
+                        e1 = ast.dump(ast.parse(conv(pv.format(*a1, typeof_0="float")), mode="eval"))
+                    except SyntaxError:
+                        e1 = None  # parses with explicit parentheses, not without: the substitution breaks the text
                     if e1 != e2:
                         bad.append((pk, j, ck, pv.format(*a1, typeof_0="float")))
         rep.add(core.decided("C05/O6/composition/%s" % tname, PROP, not bad, functions=fnid, text="%d (parent template, placeholder, child template) combinations: the child's tree is intact inside the parent (same parse as with explicit parentheses)" % n, detail=dict(bad=[str(b) for b in bad[:5]], not_parsable_as_python=sorted(set(skipped))), meta=dict(target=tname, kind="composition", bad=[str(b) for b in bad[:3]])))
